@@ -165,6 +165,7 @@ class Abs:
         self.tx = []              # packets the client is expected to send, in order
         self.errors = error_table(spec)
         self.trigger = []         # trigger[j] = index in tx of the client packet that makes the terminal release item j
+        self.is_ack = []          # is_ack[j]: item j is the acknowledgement of a command
         self.exch_start = []      # indices in tx where an exchange (command) starts
         self.tserial = tserial if tserial is not None else cfg["serial"]
         self.ttid = ttid if ttid is not None else cfg["tid"]
@@ -196,12 +197,15 @@ class Abs:
         allr = self.replies(kind)
         # terminal items of this exchange and the client packet that triggers their release
         self.trigger.append(cmd_idx)                       # the acknowledgement
+        self.is_ack.append(True)
         if allr:
             self.trigger.append(cmd_idx)                   # the first reply is released together with it
+            self.is_ack.append(False)
         for m, r in enumerate(allr):
             self.tx.append(ACK)
             if m + 1 < len(allr):
                 self.trigger.append(len(self.tx) - 1)      # the next reply is released by this acknowledgement
+                self.is_ack.append(False)
             out.append(r)
             ctrl = r[0] * 256 + r[1]
             if once or ctrl in FINALS.get(kind, (0x060f, 0x061e)) or (stop and stop(r)):
